@@ -84,18 +84,21 @@ def instances(tier, seed):
     for opt in ("vfoo,typeguard.typechecked", "vfoo, vbar.baz ,beartype.beartype", "vfoobar,vfo,typeguard.typechecked",
                 "vfoo", ""):
         out.append(("core", dict(kind="pytest", option=opt)))
+    for n in (1, 2, 3):
+        out.append(("core", dict(kind="ipython", nmagics=n)))
     out.sort(key=lambda x: x[0] != "core")
     return out
 
 
-BOUNDS = dict(string="1..2 hook names of length 2..4 and a module name of length 1..7 (thorough 8), all characters solver variables over %r" % ALPHA,
+BOUNDS = dict(ipython="the %jaxtyping.typechecker magic issued 1..3 times with solver-branched typechecker strings in a real IPython shell; a function defined in a cell afterwards must be instrumented by the last one only",
+              string="1..2 hook names of length 2..4 and a module name of length 1..7 (thorough 8), all characters solver variables over %r" % ALPHA,
               seq="two hook configurations (9 name sets incl. the empty set x 3 checkers); sequence template: install A; optionally install B; import m1; optionally uninstall A or B (uninstall() or leaving the with-block); import m2; [thorough: optionally re-install A or B; import m3] -- every optional step and every imported module (one of %d modules of a 10-module forest) is a solver-branched choice" % len(MODS),
               pytest="5 option strings through pytest_configure")
 STUBS = ["(a) none beyond SymStr; (b) none: real imports of a generated package forest in a temporary directory; (c) a minimal pytest config object with getoption()"]
 ASSUMPTIONS = ["(b) is enumeration of operation sequences over a name menu (no value variables): imports need real hashable strings",
                "the IPython magic route concerns the source transformer (C10), it takes no package names",
                "ASCII names"]
-REQUIRED_LABELS = {"should-instrument", "instrumentation", "pytest-route"}
+REQUIRED_LABELS = {"should-instrument", "instrumentation", "pytest-route", "ipython-route"}
 REQUIRED_WITNESS = {"si-True", "si-False", "instr-typeguard", "instr-beartype", "instr-none", "instr-plain", "two-hooks-alive"}
 BUDGET_S = {"quick": 150, "thorough": 900}
 
@@ -156,6 +159,8 @@ def scenario(inst, V):
         V.reach(f"si-{got}")
         V.check("should-instrument", exp == got, got=got)
         return dict(got=got)
+    if kind == "ipython":
+        return scenario_ipython(inst, V)
     make_forest()
     purge()
     try:
@@ -244,6 +249,34 @@ def scenario(inst, V):
         return dict(trace=trace)
     finally:
         purge()
+
+
+_IP = [None]
+
+
+def scenario_ipython(inst, V):
+    from jaxtyping._import_hook import JaxtypingTransformer
+    if _IP[0] is None:
+        from IPython.testing.globalipapp import start_ipython
+        ip = start_ipython()
+        ip.run_cell(raw_cell="import jaxtyping")
+        ip.run_line_magic(magic_name="load_ext", line="jaxtyping")
+        _IP[0] = ip
+    ip = _IP[0]
+    strings = ["typeguard.typechecked", "beartype.beartype"]
+    last = None
+    for i in range(inst["nmagics"]):
+        last = strings[V.choose(f"mg{i}", len(strings))]
+        ip.run_line_magic(magic_name="jaxtyping.typechecker", line=last)
+    ntr = sum(isinstance(t, JaxtypingTransformer) for t in ip.ast_transformers)
+    ip.run_cell(raw_cell="def vprobe(x: int):\n    return x\n").raise_error()
+    fn = ip.user_global_ns["vprobe"]
+
+    class M:
+        f = staticmethod(fn)
+    got = classify(M)
+    V.check("ipython-route", ntr == 1 and got == last.split(".")[0], transformers=ntr, got=got, last=last)
+    return dict(got=got, transformers=ntr)
 
 
 def _key(inst, label, vals, info):
